@@ -17,7 +17,9 @@ RULE = ("random nestings (depth up to 8) of `with action`, `with action.context(
         "context()/run() of the already-current action 1-3 times, each level leaving by return or by an exception of the pool "
         "(crossing 0-5 enclosing levels). current_action() is probed before, inside and after every construct and after every "
         "child against the interpreter's shadow stack (identity); the recorded tape is parsed and compared with the ground-truth "
-        "forest so that children/new tasks/context-less messages are attributed as executed. non-trivial = an exceptional exit at "
+        "forest so that children/new tasks/context-less messages are attributed as executed. A fifth of the with/context()/run blocks is "
+        "entered and run on another thread than the one that created the Action. part 'fork': os.fork() inside 1-4 open blocks; the child "
+        "finds the innermost action current, logs below it, and leaving the inherited blocks restores the enclosing actions. non-trivial = an exceptional exit at "
         "depth >=2 (previous action not None); distinct by program shape")
 ASSUMPTIONS = ["generator-held blocks are closed only when the driver's context is what it was at the yield (properly nested use)"]
 BATCH = 50
@@ -26,7 +28,10 @@ STYLES = ["with", "with", "ctx_finish", "ctx_finish", "run_finish", "run_finish"
 
 def plan(tier, seed):
     n = 12000 if tier == "quick" else 120000
-    return [{"seed": seed, "lo": i, "hi": min(n, i + BATCH), "tier": tier} for i in range(0, n, BATCH)]
+    specs = [{"seed": seed, "lo": i, "hi": min(n, i + BATCH), "tier": tier} for i in range(0, n, BATCH)]
+    m = 200 if tier == "quick" else 2000
+    specs += [{"part": "fork", "seed": seed, "lo": i, "hi": min(m, i + 20), "tier": tier} for i in range(0, m, 20)]
+    return specs
 
 
 def exceptional_deep(prog):
@@ -59,6 +64,8 @@ def one(seed, i, tier, res):
     rec = Recorder(tape, "rec")
     add_destinations(rec)
     it = Interp(tape=tape)
+    it.explicit_loggers = True
+    it.cross_thread = True
     try:
         forest = it.run(prog)
     finally:
@@ -86,8 +93,120 @@ def one(seed, i, tier, res):
         res["violations"].append({"msg": problems[0], "mech": None, "detail": {"case": i, "problems": problems[:10], "program": prog}})
 
 
+def fork_case(seed, i, res):
+    """os.fork() while 1-4 scoping blocks are open: the child is still lexically inside them, so current_action() there is the
+    innermost action, what it logs is attributed to it, blocks it enters nest below it, and leaving the inherited blocks restores
+    the enclosing actions one by one."""
+    import json
+    import os
+    from eliot import current_action, log_message, start_action
+    rng = random.Random("%s:C04:fork:%d" % (seed, i))
+    depth = rng.randint(1, 4)
+    kinds = [rng.choice(["with", "context", "run"]) for _ in range(depth)]
+    got = []
+    add_destinations(got.append)
+    r, w = os.pipe()
+    stack = []
+
+    def child_checks():
+        problems = []
+        inner = stack[-1]
+        if current_action() is not inner:
+            problems.append("after fork, inside %d open blocks: current_action() is %r, expected the innermost action" % (depth, current_action()))
+        del got[:]
+        log_message(message_type="in-child", n=1)
+        with start_action(action_type="child-action") as a:
+            if current_action() is not a:
+                problems.append("in the forked child a newly entered action is not current")
+        if current_action() is not inner:
+            problems.append("in the forked child, leaving a block entered after the fork restored %r instead of the enclosing action" % (current_action(),))
+        for m in got:
+            if m["task_uuid"] != inner.task_uuid or m["task_level"][:-1 if "action_type" not in m else -2] != inner._task_level.as_list():
+                problems.append("message logged by the forked child inside the open blocks is not attributed to the innermost action: %r" % (
+                    {k: m[k] for k in ("task_uuid", "task_level")},))
+                break
+        if len(got) != 3:
+            problems.append("the forked child logged 3 messages, its destination received %d" % len(got))
+        return problems
+
+    def nest(level):
+        if level == depth:
+            pid = os.fork()
+            if pid == 0:
+                try:
+                    os.close(r)
+                    problems = child_checks()
+                    os.write(w, json.dumps({"problems": problems, "phase": "inner"}).encode())
+                except BaseException as e:
+                    os.write(w, json.dumps({"problems": ["child raised %r" % (e,)]}).encode())
+                    os._exit(1)
+                return ("child", pid)
+            return ("parent", pid)
+        a = start_action(action_type="lvl%d" % level)
+        stack.append(a)
+        try:
+            if kinds[level] == "with":
+                with a:
+                    role = nest(level + 1)
+            elif kinds[level] == "context":
+                with a.context():
+                    role = nest(level + 1)
+                a.finish()
+            else:
+                role = a.run(nest, level + 1)
+                a.finish()
+        finally:
+            stack.pop()
+        if role[0] == "child":
+            want = stack[-1] if stack else None
+            if current_action() is not want:
+                os.write(w, json.dumps({"problems": ["in the forked child, leaving inherited block %d (%s) restored %r, expected %s" % (
+                    level, kinds[level], current_action(), "the enclosing action" if want is not None else "None")]}).encode())
+        return role
+
+    try:
+        role = nest(0)
+    finally:
+        remove_destination(got.append)
+    if role[0] == "child":
+        os._exit(0)
+    os.close(w)
+    data = b""
+    while True:
+        b = os.read(r, 65536)
+        if not b:
+            break
+        data += b
+    os.close(r)
+    os.waitpid(role[1], 0)
+    problems = []
+    dec = json.JSONDecoder()
+    pos = 0
+    text = data.decode()
+    reports = 0
+    while pos < len(text):
+        obj, pos = dec.raw_decode(text, pos)
+        reports += 1
+        problems.extend(obj["problems"])
+    if reports == 0:
+        res["inconclusive"] = "forked child reported nothing"
+    if current_action() is not None:
+        problems.append("parent: current_action() is not None after all blocks were left")
+    res["evals"] += 1
+    c = res["counters"]
+    c["fork_probes"] = c.get("fork_probes", 0) + 1
+    res["nontrivial"].append(h(["fork", kinds]))
+    if problems:
+        res["violations"].append({"msg": problems[0], "mech": None, "detail": {"part": "fork", "kinds": kinds, "problems": problems[:6]}})
+
+
 def run_case(spec):
     res = {"evals": 0, "nontrivial": [], "counters": {}, "violations": [], "sample": None}
+    if spec.get("part") == "fork":
+        for i in range(spec["lo"], spec["hi"]):
+            fork_case(spec["seed"], i, res)
+        res["sets"] = {"depths": []}
+        return res
     for i in range(spec["lo"], spec["hi"]):
         one(spec["seed"], i, spec["tier"], res)
     # max is not additive: report it through a set instead
